@@ -209,18 +209,20 @@ var normaliserFuncs = map[string]bool{
 
 // the sites where a normaliser is applied to something that is not an id or payload
 var allowedNormalisers = map[string]string{
-	"api.API.SearchPromises/strings.ToLower":      "the search state WORD (pending/resolved/rejected), not an id",
-	"api.parseFieldError/strings.ToLower":         "the validator's field NAME in an error message",
-	"promise.State.UnmarshalJSON/strings.ToUpper": "the state WORD in a request body",
-	"http.oneOfCaseInsensitive/strings.EqualFold": "the state WORD validator",
-	"sqlite.SqliteStoreWorker.searchPromises/strings.ReplaceAll":    "search PATTERN: * → % (search patterns are exempt by the statement)",
-	"sqlite.SqliteStoreWorker.searchSchedules/strings.ReplaceAll":   "search PATTERN: * → %",
-	"postgres.PostgresStoreWorker.searchPromises/strings.ReplaceAll":  "search PATTERN: * → %",
-	"postgres.PostgresStoreWorker.searchSchedules/strings.ReplaceAll": "search PATTERN: * → %",
-	"sender.schemeToRecv/strings.TrimPrefix":      "URL syntax: the path of poll://group/id without its leading slash is the listener id",
-	"api.parseFieldError/strings.ReplaceAll":      "error message text",
-	"util.RemoveWhitespace/strings.Map":           "helper definition (its call sites are judged)",
-	"config.Config.Parse/strings.NewReplacer":     "configuration keys",
+	// keyed by package, normaliser and the ORIGIN of its operands (origin.go): stable under renaming
+	// of locals and extraction of helpers; operands without a nameable origin carry the function
+	"api/strings.ToLower(param:api.API.SearchPromises#1)":                             "the search state WORD (pending/resolved/rejected), not an id",
+	"api/strings.ToLower(call:validator.FieldError.Field)":                            "the validator's field NAME in an error message",
+	"api/strings.ReplaceAll(call:validator.FieldError.Field)":                         "error message text",
+	"promise/State.UnmarshalJSON/strings.ToUpper(addr-taken|zero)":                    "the state WORD in a request body",
+	"http/strings.EqualFold(call:reflect.Value.String & call:strings.Split[])":        "the state WORD validator",
+	"sqlite/strings.ReplaceAll(field:t_aio.SearchPromisesCommand.Id)":                "search PATTERN: * → % (search patterns are exempt by the statement)",
+	"sqlite/strings.ReplaceAll(field:t_aio.SearchSchedulesCommand.Id)":               "search PATTERN: * → %",
+	"postgres/strings.ReplaceAll(field:t_aio.SearchPromisesCommand.Id)":              "search PATTERN: * → %",
+	"postgres/strings.ReplaceAll(field:t_aio.SearchSchedulesCommand.Id)":             "search PATTERN: * → %",
+	"sender/strings.TrimPrefix(field:url.URL.Path)":                                   "URL syntax: the path of poll://group/id without its leading slash is the listener id",
+	"util/RemoveWhitespace/strings.Map(expr & param:util.RemoveWhitespace#0)":         "helper definition (its call sites are judged)",
+	"config/strings.NewReplacer()":                                                    "configuration keys",
 }
 
 // ruleNoNormalisers (R15): no normalising / escaping function is applied in the packages that
@@ -242,7 +244,20 @@ func ruleNoNormalisers(c *Ctx) {
 					continue
 				}
 				n++
-				site := pk.Name + "." + funcName(fd) + "/" + cn
+				var ops []string
+				for _, a := range call.Args {
+					if tv, ok := info.Types[a]; ok && tv.Value == nil {
+						ops = append(ops, originOf(pk, fd, a, 0))
+					}
+				}
+				opd := strings.Join(ops, " & ")
+				site := pk.Name + "/" + cn + "(" + opd + ")"
+				for _, vague := range []string{"addr-taken", "expr", "local:", "zero", "…", "ident:", "sel:"} {
+					if strings.Contains(opd, vague) {
+						site = pk.Name + "/" + funcName(fd) + "/" + cn + "(" + opd + ")"
+						break
+					}
+				}
 				why, ok := allowedNormalisers[site]
 				c.check(ok, "normaliser/"+site, call.Pos(), cn+" applied to "+why, cn+" is applied in "+pk.Name+"."+funcName(fd)+" ("+exprString(call)+"): ids and payloads must be stored, compared and returned exactly as supplied (no case folding, trimming or escaping)")
 			}
